@@ -156,9 +156,23 @@ class SimServer:
         await self.rig.bus.emit(MessageReceivedEvent(PrivilegedUsers.Response(users=list(usernames)), self.conn))
 
 
+class TimedLog(list):
+    """`rig.log` that also notes the virtual time of every entry (`.times`, same indices)"""
+
+    def __init__(self, loop):
+        super().__init__()
+        self.loop = loop
+        self.times: list[float] = []
+
+    def append(self, entry):
+        super().append(entry)
+        self.times.append(self.loop.time())
+
+
 class TrackedRig(Rig):
     def __init__(self, loop, slots: int = 2, teardown: int = 0, reply_delay: Optional[float] = 0.0):
         super().__init__(loop, slots, teardown)
+        self.log = TimedLog(loop)
         from aioslsk.events import MessageReceivedEvent
         from aioslsk.user.manager import UserManager
         freeze_gc_once()
